@@ -150,11 +150,12 @@ void run_lifeprobe(const std::vector<std::string> &w, out &o)
 // "constructed-over-live  destructor-on-dead  read-of-dead" (compared with the
 // slot-lifetime model of the Lean side); the oracle judges what C03 states: the
 // values come out FIFO for this non-trivial T too.
-// Round 3b: `e` = `emplace(head_place())` (the argument aliases the slot: emplace has no aliasing test),
-// `x` = a push whose copy constructor throws (caught here).  Both leave events the lifetime clause forbids
-// (findings C03-emplace-alias-head-slot, C03-ring-push-throwing-copy): in a `lifecount` line they are `@F:`
-// probes; `lifeviol <n> <script>` is the same run whose oracle judges the VALUE clauses only (FIFO, and the
-// strong guarantee of the throwing push) while the five counters are compared with the model.
+// Round 3b: `x` = a push whose copy constructor throws (caught here; repaired 6d59c1e: the slot gets a T() back;
+// the oracle also judges the strong guarantee: head / tail / avail / stored elements unchanged),
+// `e` = `emplace(head_place())` (the argument aliases the slot: emplace has no aliasing test) - it leaves an
+// event the lifetime clause forbids (finding C03-emplace-alias-head-slot): in a `lifecount` line it is an `@F:`
+// probe; `lifeviol <n> <script>` is the same run whose oracle judges the VALUE clauses only while the five
+// counters are compared with the model.
 void run_lifecount(const std::vector<std::string> &w, out &o)
 {
     const bool strict = w[0] == "lifecount";
